@@ -44,9 +44,10 @@ def alloc_eq(K, a, b):
     return bool(K[3]) or a == b
 
 
-def simulate(L, K, lines):
+def simulate(L, K, lines, thrown=()):
     """-> list (one entry per step) of dict: 'slots' {s: AVec or None}, 'res', 'op'.
-    Raises Invalid if a documented precondition is violated."""
+    Raises Invalid if a documented precondition is violated.  Steps whose index is in
+    `thrown` threw std::bad_alloc: they must not have changed anything (C17)."""
     slots = {}
     eslots = {}       # element slots: dict(t=tuple, aid=int, null=bool)
     out = []
@@ -66,12 +67,21 @@ def simulate(L, K, lines):
             raise Invalid("element slot %d not usable" % s)
         return e
 
-    for line in lines:
+    for lineno, line in enumerate(lines):
         t = line.split()
         op, a = t[0], [int(x) for x in t[1:]]
         res = None
         touched = []
-        if op == "mkvec":
+        if lineno in thrown:
+            op = "thrown:" + op
+            touched = [s for s, v in slots.items() if v is not None]
+        elif op == "failat":
+            pass
+        elif op in ("mkvec", "default", "copyctor", "movector") and slots.get(a[0]) is not None:
+            raise Invalid("construction into an occupied vector slot")
+        elif op in ("efromref", "ecopy", "ecopyalloc", "emove", "emovealloc") and eslots.get(a[0]) is not None:
+            raise Invalid("construction into an occupied element slot")
+        elif op == "mkvec":
             v = AVec()
             v.cap, v.budget, v.aid, v.null = a[1], a[2], a[3], False
             v.fixed = a[5:5 + a[4]]
@@ -202,7 +212,7 @@ def simulate(L, K, lines):
                     nx.aid, ny.aid = x.aid, y.aid
                 slots[a[0]], slots[a[1]] = nx, ny
             touched = [a[0], a[1]]
-        elif op in ("junk",):
+        elif op in ("junk",) or op.startswith("thrown:"):
             pass
         elif op in ("refassign", "refswap"):
             d, sv = slots.get(a[0]), slots.get(a[2])
@@ -330,7 +340,6 @@ def simulate(L, K, lines):
                 e["t"] = scribbled(e["t"])
             touched = [a[0]]
         elif op == "edestroy":
-            need_elem(a[0], live=False)
             eslots[a[0]] = None
         elif op == "eobserve":
             pass
@@ -422,7 +431,7 @@ def hexof(objs):
 
 # ---------------------------------------------------------------- oracles
 MARKER_PROPS = {
-    "GUARD": {"C02", "C10"},
+    "GUARD": {"C02", "C10", "C17"},
     "BADFREE": {"C07", "C17"},
     "LIFE": {"C06", "C17"},
     "PATHERR access-paths": {"C11"},
@@ -531,8 +540,15 @@ def check(prop, L, K, lines, il, expect=None):
         for key, props in MARKER_PROPS.items():
             if m.startswith(key) and prop in props:
                 v.append("marker: " + m)
+    thrown = set()
+    n = -1
+    for l in il:
+        if l.startswith("STEP "):
+            n = int(l.split()[1])
+        elif l.startswith("THROW"):
+            thrown.add(n)
     try:
-        spec = simulate(L, K, lines)
+        spec = simulate(L, K, lines, thrown)
     except Invalid as e:
         return v + ["script invalid: %s" % e] if False else v
     except Exception:
@@ -661,6 +677,38 @@ def oracle_C12(L, K, lines, steps, spec):
                     v.append("step %d %s: relational operators inconsistent: %r" % (i, sp["op"], c))
             if len(st["cmps"]) == 2 and (st["cmps"][0][2] != st["cmps"][1][4] or st["cmps"][0][4] != st["cmps"][1][2]):
                 v.append("step %d ecmpr: element < reference and reference > element disagree" % i)
+    return v[:5]
+
+
+def oracle_C17(L, K, lines, steps, spec):
+    """after a thrown allocation every operand is exactly what it was (strong guarantee: holds
+    for every allocating operation of the repaired library), nothing leaked or freed twice,
+    every object destroyed once: contents, sizes, capacities, allocators, elements, ledger"""
+    v = content_mismatches(L, steps, spec)
+    v += oracle_C12(L, K, lines, steps, spec)
+    for i, (st, sp) in enumerate(zip(steps, spec)):
+        if not sp["op"].startswith("thrown:"):
+            continue
+        for s, ov in st["vecs"].items():
+            av = sp["slots"].get(s)
+            if av is None:
+                v.append("step %d %s threw but vector %d exists afterwards" % (i, sp["op"], s))
+                continue
+            if ov["cap"] != av.cap:
+                v.append("step %d %s threw: capacity() of vector %d changed to %d (was %d)" % (i, sp["op"], s, ov["cap"], av.cap))
+            if not alloc_eq(K, ov["aid"], av.aid):
+                v.append("step %d %s threw: allocator of vector %d changed" % (i, sp["op"], s))
+            if i > 0:
+                for j in range(i - 1, -1, -1):
+                    if s in steps[j]["vecs"]:
+                        if steps[j]["vecs"][s]["bid"] != ov["bid"] or steps[j]["vecs"][s]["cons"] != ov["cons"]:
+                            v.append("step %d %s threw: vector %d changed its block" % (i, sp["op"], s))
+                        break
+        for s in sp["slots"]:
+            if sp["slots"][s] is not None and s not in st["vecs"] and s not in st["null"]:
+                v.append("step %d %s threw: vector %d was not observable afterwards" % (i, sp["op"], s))
+    v += oracle_C07(L, K, lines, steps, spec)
+    v += oracle_C06(L, K, lines, steps, spec)
     return v[:5]
 
 
@@ -1025,7 +1073,8 @@ def oracle_C07(L, K, lines, steps, spec):
                 v.append("step %d: block %d allocated by allocator %d, returned through unequal allocator %d" % (i, blk, a1, a2))
         else:
             v.append(b)
-    if spec and all(x is None for x in spec[-1]["slots"].values()) and len(steps) == len(spec):
+    if spec and all(x is None for x in spec[-1]["slots"].values()) and len(steps) == len(spec) and \
+            all(x is None for x in spec[-1].get("eslots", {}).values()):
         for b, (aid, unit, n) in live.items():
             v.append("all containers destroyed, block %d (%d x %d bytes, allocator %d) never returned" % (b, n, unit, aid))
     return v[:5]
@@ -1139,6 +1188,9 @@ def oracle_C06(L, K, lines, steps, spec):
                 continue
             for t in av.elems:
                 want += sum(len(f) for f, p in zip(t, L) if p.ty == lay.TTRK)
+        for s, ae in sp.get("eslots", {}).items():
+            if ae is not None and not ae["null"]:
+                want += sum(len(f) for f, p in zip(ae["t"], L) if p.ty == lay.TTRK)
         if len(live) != want:
             v.append("step %d %s: %d live instrumented objects, the containers logically hold %d" % (i, sp["op"], len(live), want))
             break
